@@ -85,7 +85,9 @@ impl<T: Clone + Copy + Number + Signed + std::cmp::PartialOrd> Matrix<T> {
                     imax = k;
                 }
             }
-            //TODO check max_a to ensure matrix is not singular 
+            // The whole column is zero on and below the diagonal: the matrix is singular,
+            // U keeps a zero on the diagonal and there is nothing to eliminate
+            if max_a == T::zero() { continue; }
             if imax != i {
                 permutation.swap_rows( i, imax );
                 self.swap_rows( i, imax );
